@@ -76,7 +76,7 @@ def _contains(i, g) -> bool:
         return True
     if i[0] == "perm":
         return _contains(i[3], g)
-    if i[0] in ("pa", "pb"):
+    if i[0] in ("pa", "pb", "oth"):
         return _contains(i[1], g)
     return False
 
@@ -125,6 +125,9 @@ class InterpBase:
         self.callbacks = callbacks or {}
         self.try_depth = 0
         self.ctl: List[LoopCtx] = []
+        self.unroll_idx: List[int] = []
+        self._site_ids: Dict[Tuple, int] = {}
+        self.pairs_base: Dict[Any, Length] = {}
         self.quiet = 0
         from .builtins import Builtins
 
@@ -133,6 +136,15 @@ class InterpBase:
     # ==================================================================================
     # bookkeeping
     # ==================================================================================
+    def site_id(self, kind: str, node) -> int:
+        """Stable id of a loop/sort site in its dynamic context (call string, active tokens, unrolling index):
+        re-evaluating the same site during a fixpoint iteration yields the same token/permutation names."""
+        key = (kind, id(node), tuple(id(n) for n in self.call_nodes), tuple(l.token for l in self.loops), tuple(self.unroll_idx))
+        n = self._site_ids.get(key)
+        if n is None:
+            n = self._site_ids[key] = len(self._site_ids) + 1
+        return n
+
     def cur_func(self) -> str:
         return self.stack[-1].label if self.stack else "<top>"
 
@@ -244,6 +256,8 @@ class InterpBase:
     def alloc(self, state: State, obj, node, tag: str = "", origin: Optional[str] = None) -> Ptr:
         ctx = "/".join(str(getattr(n, "lineno", 0)) + "." + str(getattr(n, "col_offset", 0)) for n in self.call_nodes[-4:])
         loc = f"{tag or type(obj).__name__}@{self.cur_func()}:{getattr(node, 'lineno', 0)}.{getattr(node, 'col_offset', 0)}<{ctx}>"
+        if self.unroll_idx:
+            loc += "#" + ".".join(map(str, self.unroll_idx))
         toks = self.active_tokens()
         doms = tuple(l.length for l in self.loops)
         state.heap[loc] = Cell(obj, toks, doms, origin or f"alloc:{self.cur_func()}", node)
@@ -314,7 +328,7 @@ class InterpBase:
             v = replace(v, prov=v.prov | state.pc)
         self.field_version[(p.loc, fld)] = self.field_version.get((p.loc, fld), 0) + 1
         singleton = not c.params
-        precise = all(i != STAR and i[0] not in ("pa", "pb") for i in p.idx)
+        precise = all(i != STAR and i[0] not in ("pa", "pb", "oth") for i in p.idx)
         if singleton:
             state.heap[p.loc] = replace(c, obj=c.obj.set(fld, v))
             return
@@ -349,7 +363,16 @@ class InterpBase:
                 continue
             v = state.overlay.pop(k)
             nk = (k[0], tuple(subst_index(i, env_g) for i in k[1]), k[2])
-            v = subst_val(v, env_s)
+            # inside the value the token becomes a reference to the instance's own parameter when the key
+            # component is the bare token, otherwise an unknown position
+            c = state.heap.get(k[0])
+            own = None
+            if c is not None:
+                for j, i in enumerate(k[1]):
+                    if i == ivar(tok) and j < len(c.params):
+                        own = ivar(c.params[j])
+                        break
+            v = subst_val(v, {tok: own} if own is not None else env_s)
             old = state.overlay.get(nk)
             state.overlay[nk] = v if old is None else join_val(old, v)
 
@@ -540,9 +563,7 @@ class InterpBase:
             flags = set(base.flags)
             regular = not b.irregular and (b.per_iter in (None, 1)) and not had_break and base.length.known() == 0
             if regular:
-                if not lc.covering:
-                    flags.add("partial")
-                seq = Seq(lc.length, gen, b.kvar, None, None, frozenset(flags), "list")
+                seq = Seq(lc.length, gen, b.kvar, None, None, frozenset(), "list")
             else:
                 why = b.irregular or ("break" if had_break else "tail-append" if base.length.known() != 0 else "multi-append")
                 flags.add(why)
